@@ -1,3 +1,4 @@
 pub mod bfs;
 pub mod enumr;
 pub mod report;
+pub mod sched;
